@@ -33,7 +33,7 @@ PROBES = ["copy_of_copy", "nice_on_scale_with_living_relative",
           "clamp_on_aliased", "magnitude_tiny", "magnitude_huge", "rejected_call_raised",
           "readonly_op", "unobserved_step", "range_list_edited_in_place_and_passed_again",
           "foreign_library_activity", "constructed_with_arguments", "getter_to_setter_transfer",
-          "range_list_shared_through_constructor"]
+          "range_list_shared_through_constructor", "deepcopy_of_scale", "long_copy_chain", "end_point_nudged"]
 
 RULE = (
     "Each run draws (from one PRNG seeded by sha256(VERIF_SEED:scale:i)) a magnitude regime "
@@ -146,6 +146,13 @@ def gen_plan(rng, tier):
             ops.append(["interp", i])
         elif r < copy_p + nice_p + 0.08 and pool > 1:
             ops.append([rng.choice(["domain_from", "range_from"]), i, rng.randrange(pool)])
+        elif r < copy_p + nice_p + 0.10:
+            ops.append(["nudge", i, rng.randrange(2), rng.choice([1e-7, -3e-8, 1e-9, 2e-6])])
+        elif r < copy_p + nice_p + 0.11 and pool < max_pool:
+            ops.append(["deepcopy", i])
+            pool += 1
+        elif r < copy_p + nice_p + 0.115:
+            ops.append(["copy_chain", i, rng.choice([40, 1200])])
         elif r < copy_p + nice_p + 0.22:
             d = _pair(rng, lo, hi, style)
             if rng.random() < 0.03:
@@ -208,7 +215,7 @@ def well_formed(plan):
             continue
         else:
             op[1] = op[1] % pool
-            if op[0] == "copy":
+            if op[0] in ("copy", "deepcopy"):
                 if pool >= cap:
                     continue
                 pool += 1
@@ -489,6 +496,34 @@ def _run(plan):
                     target.nice(op[2])
                 if aliased:
                     bump("probe:nice_on_scale_with_living_relative")
+            elif kind == "deepcopy":
+                # duplicated with the standard library (as copy.deepcopy of an options
+                # dict holding a scale does); must be as independent as copy()
+                import copy as _copy
+
+                new_scale = _copy.deepcopy(target)
+                pool.append(new_scale)
+                family.append(family[op[1]])
+                generation.append(generation[op[1]] + 1)
+                bump("probe:deepcopy_of_scale")
+            elif kind == "copy_chain":
+                # many generations of copy-of-copy; only the last one is kept
+                cur = target
+                for _ in range(op[2]):
+                    cur = cur.copy()
+                pool[op[1]] = cur
+                last_snap.pop(id(target), None)
+                exempt.pop(id(target), None)
+                new_scale = cur
+                bump("probe:long_copy_chain")
+            elif kind == "nudge":
+                # one end point moved by a hair: configurations that agree to many digits
+                d = [float(v) for v in target.domain()]
+                k = op[2] % 2
+                d[k] = d[k] * (1.0 + op[3]) if d[k] else op[3]
+                if d[0] != d[1]:
+                    target.domain(d)
+                bump("probe:end_point_nudged")
             elif kind == "copy":
                 new_scale = target.copy()
                 pool.append(new_scale)
@@ -572,7 +607,7 @@ def _run(plan):
         if new_scale is not None:
             touched.add(id(new_scale))
         if aliased and kind in ("domain", "range", "range_reuse", "clamp", "nice", "bad_nice", "bad_domain", "chain", "interp",
-                                "domain_from", "range_from"):
+                                "domain_from", "range_from", "nudge"):
             bump("fault:alias:fired")
             bump("fault:alias:configured")
             if kind in ("domain", "range", "clamp"):
@@ -581,7 +616,8 @@ def _run(plan):
             bump("probe:pool_size_5")
         v = None
         if outcome.startswith("raise") and kind in ("domain", "range", "range_reuse", "clamp", "nice", "copy", "new",
-                                                    "chain", "interp", "domain_from", "range_from"):
+                                                    "chain", "interp", "domain_from", "range_from", "deepcopy",
+                                                    "copy_chain", "nudge"):
             # a documented call on documented arguments must not raise ... unless
             # the scale is degenerate (division by zero is outside the property)
             d = list(target.domain()) if target is not None else [0, 1]
@@ -613,7 +649,7 @@ def _run(plan):
                                               "before": old[:3], "after": now[:3]})
                         break
             # I3 copy equals original
-            if v is None and kind == "copy" and outcome == "ok":
+            if v is None and kind in ("copy", "deepcopy") and outcome == "ok":
                 if snaps[id(new_scale)] != snaps[id(target)]:
                     v = ("I3_copy", {"original": snaps[id(target)][:3], "copy": snaps[id(new_scale)][:3]})
             # I1 / I5 on every scale
